@@ -157,19 +157,20 @@ add('C14', 'proof', 'Lean 4 theorems: naive decoder (min weight, corrects total 
     'comparison of the naive decoder and by sweeping every error with |X|,|Z| <= t on planar and toric 2x2..4x5 (exhaustive) '
     'and samples beyond through the real decoders, verdict confirmed by the Lean driver and a span certificate.',
     TB + 'Minimality of the networkx matching is a hypothesis (tested against a verified optimum in C13).')
-add('C08', 'proof', 'Lean 4 theorems: IsDistance (min R C) for ALL sizes of the planar, toric, rotated-planar and rotated-toric families (lower bound by strip-parity / disjoint translates), basic codes by kernel evaluation; verified CSS-split search on the real matrices for colour 6.6.6',
-    'Theorems (34): for every size of the planar, toric (all four logicals), rotated-planar and rotated-toric families, every '
-    'operator that commutes with all stabilizers and anticommutes with some logical has weight >= min(R,C) (commutation '
-    'with the generators of one strip forces equal parity on neighbouring translates of the logical, so the operator meets '
-    'R resp. C pairwise disjoint supports), the lighter supplied logical attains it, hence IsDistance with d = n_k_d[2] with '
-    'no hypotheses left (C07 facts discharged); IsDistance for the five-qubit and Steane codes and the smallest lattices by '
-    'kernel evaluation; the CSS split, soundness/completeness of the executable search and certificate soundness for any '
-    'matrices; closed-form logical weights for all five families. "Non-trivial logical" = "anticommutes with some logical" '
-    'is equivalent to "not a product of stabilizers" by normaliser completeness, proved for every ValidCode. For colour '
-    '6.6.6 the lower bound is NOT a theorem beyond size 3: it is decided per size by running the verified search through '
-    'the compiled driver on the REAL matrices (with a stabilizer-derived basis of N(S)/S) and an independent numpy search. '
-    'n_k_d is compared with the model for all sizes up to the bound incl. rectangles and strips.',
-    TB + 'Colour 6.6.6 distance beyond the searched sizes is not established.')
+add('C08', 'proof', 'Lean 4 theorems: IsDistance with d = n_k_d[2] for ALL sizes of all five lattice families and for the basic codes; verified search on the real matrices as the tie',
+    'Theorems (37 + span form): for every accepted size of the planar, toric (all four logicals), rotated-planar, '
+    'rotated-toric and colour 6.6.6 families, every operator that commutes with all stabilizers and anticommutes with some '
+    'logical has weight >= d (square-lattice families: commutation with the generators of one strip forces equal parity on '
+    'neighbouring translates of the logical, so the operator meets min(R,C) pairwise disjoint supports; colour code: the '
+    'relevant half of the operator is the complement of a plaquette sum by normaliser completeness, and an induction '
+    'L-2 -> L with a transfer-matrix potential shows at least L sites are covered evenly), the lighter supplied logical '
+    'attains d, hence IsDistance n S L d with d = n_k_d[2] and no hypotheses left; five-qubit and Steane codes and the '
+    'smallest lattices also by kernel evaluation; CSS split, soundness/completeness of the executable search and certificate '
+    'soundness for any matrices; "non-trivial logical" = "not a product of stabilizers" by normaliser completeness (proved for '
+    'every ValidCode). Tied to the code by comparing n_k_d with the model for all sizes up to the bound incl. rectangles and '
+    'strips, and by running the verified search through the compiled driver on the REAL stabilizer / logical matrices (with a '
+    'stabilizer-derived basis of N(S)/S, so a dropped generator is detected) plus an independent numpy search on larger sizes.',
+    TB + 'Modelled rather than verified: n_k_d and the stabilizer/logical matrices of every family (tie shared with C07).')
 add('C10', 'proof', 'Lean 4 theorems about the coset-probability specification (partition, sample independence, ML optimality) + exact-rational vs float comparison of every coset probability of the real decoders',
     'Spec side proved for any code satisfying a named CodeSpec (independent generators, commutation, normaliser = <S,L>): the '
     'span enumeration is exact and duplicate-free, the syndrome class is the disjoint union of the 4^k cosets so coset '
